@@ -52,8 +52,29 @@ THEOREMS = [
     "Verif.C09.ensemble_identical_curve",
     "Verif.C09.ols_scale",
     "Verif.C09.ols_time_scale",
+    "Verif.C09.optimal_points_cache",
+    "Verif.C09.optimal_points_invariant",
+    "Verif.C09.optimal_points_scale",
+    "Verif.C09.ols_estimate_def",
+    "Verif.C09.ols_auto_def",
+    "Verif.C09.ols_auto_invariant",
+    "Verif.C09.ols_auto_scale",
+    "Verif.C09.ols_auto_time_scale",
+    "Verif.C09.contiguous_full",
+    "Verif.C09.ensemble_identical_auto",
+    "Verif.C09.gls_normal_equations",
+    "Verif.C09.covEntry_symm",
+    "Verif.C09.estimate_max_lag_zero",
+    "Verif.C09.estimate_dispatch_cve",
+    "Verif.C09.estimate_dispatch_ols",
+    "Verif.C09.estimate_rejects",
+    "Verif.C09.estimate_invariant",
+    "Verif.C09.gls_result_def",
+    "Verif.C09.estimate_simple_time_scale",
+    "Verif.C09.optimalPointsF_atLeastTwo",
 ]
 TOL = 1e-9
+AUTO_OPS = ("optpts", "olsauto", "copyauto", "ensolsauto", "optraw")  # max_lag=None: determine_optimal_points and what is built on it
 VARIANTS = ("base", "translate", "mirror", "shift", "scale", "time", "far")
 BASIC = VARIANTS[1:6]  # the variants every generated case gets; "far" (a translation by a huge offset) is added explicitly
 
@@ -149,6 +170,16 @@ def pow2(a):
     return a > 0 and math.frexp(a)[0] == 0.5
 
 
+def auto_variants(case):
+    """the variants on which the AUTO_OPS (automatic number of lags) of a case are run: base, the position scale (the lag
+    search must not depend on the length unit: optimal_points_scale) and one more, cycling with the content of the case"""
+    f = case["frames"][0] if case["kind"] == "ens" and case["frames"] else case["frames"]
+    key = len(f) + int(sum(f)) + len(case.get("variants", []))
+    if len(f) > 12:  # (the model's MSD is O(n^2) per lag)
+        return ("base", "scale" if key % 2 else BASIC[key % len(BASIC)])
+    return ("base", "scale", BASIC[key % len(BASIC)], "far" if key % 3 == 0 else "base")
+
+
 def expand(case):
     """list of calls; each call = one protocol op with concrete inputs"""
     kind = case["kind"]
@@ -161,12 +192,16 @@ def expand(case):
                     "fdtype": case.get("fdtype")}
             a2 = case["meta"]["a"] ** 2 if v == "scale" else 1.0
             for op in case["ops"]:
+                if op in AUTO_OPS and (v not in auto_variants(case) or (op == "copyauto" and v == "scale" and len(frames) > 6)):
+                    continue
                 c = dict(base, op=op)
                 if op in ("msd", "kmsd", "ols"):
                     c["L"] = case.get("L_" + op, case.get("L"))
                 if op == "cvek":
                     c["lv"] = case["lv"] * a2 if case["lv"] is not None else None
                     c["vlv"] = case["vlv"] * a2 * a2 if case["vlv"] is not None else None
+                if op == "copyauto":
+                    c["copies_k"] = case.get("copies_k", 2)
                 if op == "ols" and (v != "scale" or pow2(case["meta"]["a"])):
                     # GLS / automatic lag selection: exact under power-of-two scaling, so asserted there too
                     c["extras"] = case.get("extras", [])
@@ -182,6 +217,8 @@ def expand(case):
                 cs.append(x2)
             base = {"v": v, "frames": fs, "coords": cs, "px": px, "dt": dt, "blur": case["blur"], "fdtype": case.get("fdtype")}
             for op in case["ops"]:
+                if op in AUTO_OPS and v not in auto_variants(case):
+                    continue
                 c = dict(base, op=op, L=case.get("L"), minc=case.get("minc", 2))
                 if op == "ensols":
                     c["L"] = case.get("L_ols", case.get("L"))
@@ -206,6 +243,17 @@ def expand(case):
         calls.append({"v": "base", "op": "wmean", "means": case["means"], "counts": case["counts"]})
     elif kind == "cov":
         calls.append({"v": "base", "op": "cov", "K": case["K"], "n": case["n"], "a": case["a"], "b": case["b"]})
+    elif kind == "est":
+        # KymoTrack.estimate_diffusion as a dispatcher: one call per request (method, max_lag, localization_variance, its variance)
+        for q in case["reqs"]:
+            calls.append({"v": "base", "op": "est", "frames": case["frames"], "coords": case["coords"], "px": case["px"],
+                          "dt": case["dt"], "blur": case["blur"], "fdtype": case.get("fdtype"), "req": q})
+    elif kind == "glsupd":
+        # one step of the GLS iteration on the inverse covariance matrix the library itself computes for (K, n, a, b)
+        calls.append({"v": "base", "op": "glsupd", "K": case["K"], "n": case["n"], "a": case["a"], "b": case["b"], "msd": case["msd"]})
+    elif kind == "optraw":  # optimal_points(localization_error, num_points) on a list of localisation errors
+        for le in case["les"]:
+            calls.append({"v": "base", "op": "optraw", "le": le, "n": case["n"]})
     elif kind == "brownian":
         # a SESSION: the simulations of the case are run one after the other in this process (after everything that was
         # simulated `before`), and every observation is made on the KymoTrackGroup the simulation RETURNED (`obs`, recorded by
@@ -331,6 +379,26 @@ def show_est(e):
 # ------------------------------------------------------------------ impl
 
 
+_W = {}
+
+
+def gls_weight(c):
+    """np.linalg.inv(_msd_diffusion_covariance(K, n, a, b)) - the matrix _diffusion_gls hands to _update_gls_estimate - as
+    the doubles the implementation gets (the model is given exactly these doubles); None when singular"""
+    key = (c["K"], c["n"], c["a"], c["b"])
+    if key not in _W:
+        if len(_W) > 5000:
+            _W.clear()
+        me = _lk()[1]
+        try:
+            with np.errstate(all="ignore"):
+                w = np.linalg.inv(me._msd_diffusion_covariance(c["K"], c["n"], c["a"], c["b"]))
+            _W[key] = w if np.all(np.isfinite(w)) else None
+        except np.linalg.LinAlgError:
+            _W[key] = None
+    return _W[key]
+
+
 def run_call(c):
     _, me, KymoTrack, KymoTrackGroup = _lk()
     op = c["op"]
@@ -339,10 +407,29 @@ def run_call(c):
     if op == "wmean":
         w = me.weighted_mean_and_sd(np.array(c["means"], dtype=float), np.array(c["counts"], dtype=np.int64))
         return "ok " + " ".join(rat(x) for x in w)
+    if op == "est":
+        tr = make_track(c)
+        q = c["req"]
+        e = tr.estimate_diffusion(q["method"], max_lag=q["L"], localization_variance=q["lv"],
+                                  variance_of_localization_variance=q["vlv"])
+        return show_est(e) + " " + ("N" if q["method"] == "cve" else str(int(e.num_lags)))
+    if op == "glsupd" and not hasattr(me, "_update_gls_estimate"):
+        # a private helper that no anchor names: when a refactoring renames / re-signs it the step is still run inside every
+        # GLS fit (op est); nothing to compare here
+        return "helper-unavailable"
+    if op == "glsupd" and gls_weight(c) is None:
+        return "singular"
+    if op == "glsupd":
+        ch, slope, icpt, var = me._update_gls_estimate(gls_weight(c), np.array(c["msd"], dtype=float), c["a"], c["b"])
+        return f"ok {rat(ch)} {rat(slope)} {rat(icpt)} {rat(var)}"
+    if op == "optraw":
+        le = {"inf": np.inf, "nan": np.nan, "zero": 0}.get(c["le"], c["le"])  # "zero": the Python int the code passes on
+        ns, ni = me.optimal_points(le if isinstance(le, int) else np.float64(le), c["n"])
+        return f"ok {int(ns)} {int(ni)}"
     if op == "cov":
         m = me._msd_diffusion_covariance(c["K"], c["n"], c["a"], c["b"])
         return "ok [" + ";".join(",".join(rat(x) for x in row) for row in m) + "]"
-    if op in ("msd", "kmsd", "cve", "cvek", "ols"):
+    if op in ("msd", "kmsd", "cve", "cvek", "ols", "optpts", "olsauto", "copyauto"):
         tr = make_track(c)
         pos = np.array(tr.position)
         if pos.tolist() != positions_of(c["coords"], c["px"]) or tr._line_time_seconds != c["dt"]:
@@ -354,6 +441,15 @@ def run_call(c):
         if op == "kmsd":
             t, msd = tr.msd(c["L"])
             return f"ok {rlist(t)} {rlist(msd)}"
+        if op == "optpts":  # the anchored lag search itself: (num_points_slope, num_points_intercept)
+            ns, ni = me.determine_optimal_points(frames, pos)
+            return f"ok {int(ns)} {int(ni)}"
+        if op == "olsauto":  # max_lag=None: the library chooses the number of lags and reports it
+            e = tr.estimate_diffusion("ols")
+            return show_est(e) + f" {int(e.num_lags)}"
+        if op == "copyauto":  # the ensemble of k identical copies of this track, max_lag=None
+            e = KymoTrackGroup([make_track(c) for _ in range(c.get("copies_k", 2))]).ensemble_diffusion("ols")
+            return show_est(e) + f" {int(e.num_lags)}"
         if op == "cve":
             return show_est(tr.estimate_diffusion("cve"))
         if op == "cvek":
@@ -375,9 +471,12 @@ def run_call(c):
                 except Exception as err:  # noqa: BLE001
                     ex.append(f"{name}={errname(err)}")
             return ans + (" ## " + " ".join(ex) if ex else "")
-    if op in ("ensmsd", "enscve", "ensols"):
+    if op in ("ensmsd", "enscve", "ensols", "ensolsauto"):
         tracks = [make_track(c, j) for j in range(len(c["frames"]))]
         g = KymoTrackGroup(tracks)
+        if op == "ensolsauto":  # ensemble OLS, max_lag=None
+            e = g.ensemble_diffusion("ols")
+            return show_est(e) + f" {int(e.num_lags)}"
         if op == "ensmsd":
             em = g.ensemble_msd(c["L"], c["minc"])
             return (f"ok {enc_list(em.lags)} {rlist(em.msd)} {rlist(em.variance)} {rlist(em.counts)} "
@@ -420,8 +519,27 @@ def op_line(c):
         return f"c09.wmean {rlist(c['means'])} {rlist(c['counts'])}"
     if op == "cov":
         return f"c09.cov {c['K']} {rat(c['n'])} {rat(c['a'])} {rat(c['b'])}"
-    if op in ("msd", "kmsd", "cve", "cvek", "ols"):
+    if op == "est":
+        q = c["req"]
         fs, xs = enc_list(c["frames"]), rlist(positions_of(c["coords"], c["px"]))
+        return (f"c09.est {fs} {xs} {rat(c['dt'])} {rat(c['blur'])} {q['method'].replace(' ', '~') or '-'} {opt_int(q['L'])} "
+                f"{opt_rat(q['lv'])} {opt_rat(q['vlv'])}")
+    if op == "glsupd":
+        w = gls_weight(c)
+        if w is None:
+            return "c09.glsupd [] [] 0 0"
+        return f"c09.glsupd [{';'.join(','.join(rat(x) for x in row) for row in w)}] {rlist(c['msd'])} {rat(c['a'])} {rat(c['b'])}"
+    if op == "optraw":
+        return f"c09.optraw {c['le'] if c['le'] in ('inf', 'nan') else '0' if c['le'] == 'zero' else rat(c['le'])} {int(c['n'])}"
+    if op in ("msd", "kmsd", "cve", "cvek", "ols", "optpts", "olsauto", "copyauto"):
+        fs, xs = enc_list(c["frames"]), rlist(positions_of(c["coords"], c["px"]))
+        if op == "optpts":
+            return f"c09.optpts {fs} {xs}"
+        if op == "olsauto":
+            return f"c09.olsauto {fs} {xs} {rat(c['dt'])}"
+        if op == "copyauto":
+            k = c.get("copies_k", 2)
+            return f"c09.ensolsauto [{';'.join([fs[1:-1]] * k)}] [{';'.join([xs[1:-1]] * k)}] {rat(c['dt'])}"
         if op == "msd":
             return f"c09.msd {fs} {xs} {opt_int(c['L'])}"
         if op == "kmsd":
@@ -439,6 +557,8 @@ def op_line(c):
         return f"c09.enscve {fs} {xs} {rat(c['dt'])} {rat(c['blur'])}"
     if op == "ensols":
         return f"c09.ensols {fs} {xs} {rat(c['dt'])} {int(c['L'])}"
+    if op == "ensolsauto":
+        return f"c09.ensolsauto {fs} {xs} {rat(c['dt'])}"
     raise ValueError(op)
 
 
@@ -497,13 +617,59 @@ def strip_extras(a):
 def agree(case, i, ia, ma):
     """DESIGN 2.2: ints exactly; rationals within 1e-9 * scale, the scale supplied by the model"""
     ia = strip_extras(ia)
+    op = calls_of(case)[i]["op"]
+    if op == "est":
+        if ma in ("tie", "gls-not-modelled"):
+            return True  # (a sign tie of the lag search) / (a GLS fit itself: the dispatcher got through all its checks)
+        if not ia.startswith("ok ") or not ma.startswith("ok "):
+            return ia == ma
+        xa, xm = ia.split()[1:], ma.split()[1:]
+        if len(xa) != 4 or len(xm) != 4 or xa[3] != xm[3]:
+            return False
+        for j in range(3):
+            pa, pm = ptok(xa[j]), ptok(xm[j])
+            if pm == "nonfinite":
+                if not isinstance(pa, float):
+                    return False
+            elif not near(pa, pm, max(abs(pm), EST_SCALE(case)[j]), 1e-5 if calls_of(case)[i]["req"]["method"] == "gls" else 1e-7):
+                # (GLS: np.linalg.inv of the covariance matrix in doubles vs exact elimination, iterated)
+                return False
+        return True
+    if op == "glsupd" and (ma == "singular" or ia == "helper-unavailable"):
+        return True  # kappa*mu - lam^2 = 0 exactly (or no inverse): the step divides by zero, nothing is determined
+    if op in AUTO_OPS and ma == "tie":
+        # the model reports that a sign / floor the lag search branches on is decided by the last bits of a double
+        # (signTies / floorTie in the model): nothing to compare; counted in extra_coverage
+        return True
     if not ia.startswith("ok ") or not ma.startswith("ok "):
         return ia == ma
-    op = calls_of(case)[i]["op"]
     a = [ptok(t) for t in ia.split()[1:]]
     m = [ptok(t) for t in ma.split()[1:]]
     if op == "msd":
         return a[0] == m[0] and a[1] == m[1] and near_list(a[2], m[2])
+    if op in ("optpts", "optraw"):
+        return a == m
+    if op == "glsupd":  # change, slope, intercept, var_slope | scales of slope, intercept, var_slope
+        if len(a) != 4 or len(m) != 7:
+            return False
+        c = calls_of(case)[i]
+        sc = [m[4] + m[5] + abs(Fr(c["a"])) + abs(Fr(c["b"])), m[4], m[5], m[6]]
+        return all(near(a[j], m[j], sc[j], 1e-8) for j in range(4))
+    if op in ("olsauto", "copyauto", "ensolsauto"):
+        if len(a) != 4 or len(m) != 7 or a[3] != m[3]:  # the number of lags exactly
+            return False
+        for j in range(3):
+            if m[j] == "nonfinite":
+                if not isinstance(a[j], float):
+                    return False
+                continue
+            if isinstance(a[j], float) and math.isnan(a[j]) and op != "olsauto" and j == 1:
+                if not (m[1] <= Fr(TOL) * abs(m[5])):  # sqrt of a negative var_slope/ess
+                    return False
+                continue
+            if not near(a[j], m[j], m[4 + j]):
+                return False
+        return True
     if op == "kmsd":
         return near_list(a[0], m[0]) and near_list(a[1], m[1])
     if op in ("cve", "cvek", "ols", "ensols"):
@@ -810,6 +976,110 @@ def copies_auto(single, copies, frames, pos, S, what, pts=None):
     return same_est("ok " + " ".join([xc[0], "0/1", xc[2]]), "ok " + " ".join([xs[0], "0/1", xs[2]]), (1, 1, 1), S, what)
 
 
+def oracle_glsupd(case, a):
+    """the line a GLS step returns solves the weighted normal equations for the weight matrix it was given (plain Python,
+    exact fractions of the doubles): sum_rc W[r,c] res_c = 0 and sum_rc (r+1) W[r,c] res_c = 0 with res_c = msd_c - a - b (c+1);
+    the matrix the library computes must be symmetric (hypothesis of gls_normal_equations)"""
+    w = gls_weight(calls_of(case)[0])
+    if w is None:
+        return None
+    if a == "helper-unavailable":
+        return None
+    if not a.startswith("ok "):
+        return f"_update_gls_estimate raised {a}"
+    got = [ptok(t) for t in a.split()[1:]]
+    if any(isinstance(g, float) for g in got):
+        return None  # a vanishing determinant kappa*mu - lam^2 in doubles: nothing determined
+    W = [[Fr(float(x)) for x in row] for row in w]
+    y = frs(case["msd"])
+    K = len(y)
+    lam = sum((r + 1) * W[r][c] for r in range(K) for c in range(K))
+    lam_t = sum((c + 1) * W[r][c] for r in range(K) for c in range(K))
+    wabs = sum((r + 1) * abs(W[r][c]) for r in range(K) for c in range(K))
+    if abs(lam - lam_t) > Fr(1, 10**6) * wabs:
+        return "the inverse covariance matrix handed to the GLS step is not symmetric"
+    slope, icpt = got[1], got[2]
+    res = [y[c] - icpt - slope * (c + 1) for c in range(K)]
+    mag = [abs(y[c]) + abs(icpt) + abs(slope) * (c + 1) for c in range(K)]
+    for name, wt in (("", lambda r: 1), ("lag-weighted ", lambda r: r + 1)):
+        tot = sum(wt(r) * W[r][c] * res[c] for r in range(K) for c in range(K))
+        sc = sum(wt(r) * abs(W[r][c]) * mag[c] for r in range(K) for c in range(K))
+        kap = sum(abs(W[r][c]) for r in range(K) for c in range(K))
+        den = abs(sum(W[r][c] for r in range(K) for c in range(K)) * sum((r + 1) * (c + 1) * W[r][c] for r in range(K) for c in range(K)) - lam * lam)
+        cancel = (kap * sum((r + 1) * (c + 1) * abs(W[r][c]) for r in range(K) for c in range(K)) + wabs * wabs) / den if den else None
+        if cancel is None or cancel > 10**6:
+            return None  # the 2x2 system of the step is itself ill conditioned: rounding decides
+        if abs(tot) > Fr(1, 10**7) * sc * cancel:
+            return f"GLS step: the {name}weighted residuals of the returned line do not sum to zero (not the generalised least-squares line)"
+    return None
+
+
+def EST_SCALE(case):
+    """magnitudes of (D, var D, localisation variance) of a dispatcher case: position range^2 over the line time"""
+    xs = positions_of(case["coords"], case["px"])
+    r2 = Fr(max(xs) - min(xs)) ** 2 if xs else Fr(0)
+    dt = Fr(case["dt"])
+    return (r2 / dt, (r2 / dt) ** 2, r2)
+
+
+def est_expected_error(case, q):
+    """the documented refusals of KymoTrack.estimate_diffusion, in the order the code takes them; None = it must go on"""
+    m, L, n = q["method"], q["L"], len(case["frames"])
+    if m not in ("cve", "ols", "gls"):
+        return "ValueError"
+    if m == "cve":
+        return None  # (judged by the cve ops of the track cases)
+    if q["lv"] is not None or q["vlv"] is not None:
+        return "NotImplementedError"
+    if L and L < 2:
+        return "ValueError"
+    if not L and m == "ols" and n <= 4:
+        return "RuntimeError"
+    if m == "gls" and not contiguous_frames(case["frames"]) and (L or n) >= 2:
+        return "RuntimeError"
+    return None
+
+
+def oracle_est(case, calls, ia):
+    for c, a in zip(calls, ia):
+        q = c["req"]
+        exp = est_expected_error(case, q)
+        if exp and a != exp:
+            return f"estimate_diffusion({q['method']!r}, max_lag={q['L']}, lv={q['lv']}, vlv={q['vlv']}): expected {exp}, got {a[:60]}"
+        if q["L"] == 0:  # `if max_lag`: 0 means "choose", exactly like None
+            twin = [b for d, b in zip(calls, ia) if d["req"] == dict(q, L=None)]
+            if twin and twin[0] != a:
+                return f"estimate_diffusion({q['method']!r}, max_lag=0) = {a[:50]} differs from max_lag=None = {twin[0][:50]}"
+        if q["method"] == "cve" and q["L"] is not None:  # max_lag is ignored by cve
+            twin = [b for d, b in zip(calls, ia) if d["req"] == dict(q, L=None)]
+            if twin and twin[0] != a:
+                return f"estimate_diffusion('cve', max_lag={q['L']}) differs from max_lag=None"
+    return None
+
+
+def est4(a):
+    """'ok value var lv num_lags' -> 'value,var,lv,num_lags' (the form auto_lags_line / copies_auto take), else the exception name"""
+    x = a.split()
+    return ",".join(x[1:5]) if a.startswith("ok ") and len(x) >= 5 else a
+
+
+def auto_under(op, v, exact_variant, av, ab, f, S, tie, what):
+    """an AUTO_OPS answer of a variant vs the base answer: the SAME number of lags (optimal_points_invariant / _scale: the
+    lag search is invariant under translate / mirror / frame shift / line time and under ANY position scale a != 0) and the
+    estimate scaled by f.  Where the variant changes the doubles of the MSD curve by rounding (a non-dyadic scale, a
+    translation that is not exact) a track with a sign tie (sign_ties) may legitimately take another branch: not asserted."""
+    if av == ab:
+        return None
+    if tie() and not exact_variant:
+        return None
+    if op == "optpts" or not ab.startswith("ok ") or not av.startswith("ok "):
+        return f"{what}: base gives {ab[:60]}, variant gives {av[:60]}"
+    xv, xb = av.split(), ab.split()
+    if xv[4] != xb[4]:
+        return f"{what}: the number of lags chosen by the library changed from {xb[4]} to {xv[4]}"
+    return same_est(" ".join(xv[:4]), " ".join(xb[:4]), f, S, what)
+
+
 def oracle(case, ia):
     calls = calls_of(case)
     kind = case["kind"]
@@ -838,6 +1108,18 @@ def oracle(case, ia):
             for j in range(len(m)):
                 if isinstance(m[i][j], float) or not near(m[i][j], m[j][i], m[i][j], 1e-12):
                     return f"covariance matrix is not symmetric/finite at ({i},{j})"
+        return None
+    if kind == "glsupd":
+        return oracle_glsupd(case, ia[0])
+    if kind == "est":
+        return oracle_est(case, calls, ia)
+    if kind == "optraw":
+        for c, a in zip(calls, ia):
+            if case["n"] <= 4:
+                if a != "RuntimeError":
+                    return f"optimal_points with {case['n']} points: expected RuntimeError, got {a[:40]}"
+            elif a.startswith("ok ") and min(int(x) for x in a.split()[1:3]) < 2:
+                return f"optimal_points({c['le']}, {case['n']}) = {a}: a line needs at least two lags"
         return None
     if kind == "brownian":
         return oracle_brownian(case, ia)
@@ -909,10 +1191,36 @@ def oracle(case, ia):
                                       f"ensemble of {case.get('copies_k', 2)} identical tracks, automatic number of lags", full)
                     if msg:
                         return msg
+            elif op in ("optpts", "olsauto", "copyauto"):
+                if n <= 4:
+                    if a != "RuntimeError":
+                        return f"{op} on a track of {n} points: expected RuntimeError (5 points needed), got {a[:60]}"
+                    continue
+                full = [(Fr(e[0]), e[1]) for e in brute_msd(frames, pos, None)]
+                if op == "optpts":
+                    if a.startswith("ok "):
+                        ns, ni = (int(x) for x in a.split()[1:3])
+                        if ns < 2 or ni < 2:
+                            return f"determine_optimal_points returned ({ns}, {ni}): a line needs at least two lags"
+                        oa = ans("base", "olsauto") if ("base", "olsauto") in idx else None
+                        if oa and oa.startswith("ok ") and int(oa.split()[4]) != ns:
+                            return (f"estimate_diffusion('ols') reports num_lags={oa.split()[4]} but determine_optimal_points "
+                                    f"returns {ns} lags for the slope")
+                elif op == "olsauto":
+                    msg = auto_lags_line(est4(a), full, case["dt"], "ols with the automatic number of lags (olsauto)")
+                    if msg:
+                        return msg
+                elif ("base", "olsauto") in idx:
+                    msg = copies_auto(est4(ans("base", "olsauto")), est4(a), frames, pos, S,
+                                      f"ensemble of {case.get('copies_k', 2)} identical tracks, automatic number of lags (copyauto)", full)
+                    if msg:
+                        return msg
         # physical symmetries, evaluated on the implementation's own answers
         for v in sorted({c["v"] for c in calls} - {"base"}):
             f = REL[v](meta)
             for op in case["ops"]:
+                if (v, op) not in idx:  # the AUTO_OPS run on auto_variants(case) only
+                    continue
                 av, ab = strip_extras(ans(v, op)), strip_extras(ans("base", op))
                 what = f"{op} under {v}"
                 if op in ("msd", "kmsd"):
@@ -934,6 +1242,13 @@ def oracle(case, ia):
                             return f"{what}: lag times are not {float(ft)} x the original"
                         if not near_list(gv[1], [fm * x for x in gb[1]], [max(fm * x, fm * S0) for x in gb[1]]):
                             return f"{what}: MSD values are not {float(fm)} x the original"
+                elif op in AUTO_OPS and (v, op) not in idx:
+                    continue
+                elif op in AUTO_OPS:
+                    exact_v = v in ("mirror", "shift", "time") or (v == "scale" and pow2(meta["a"])) or (v == "translate" and case.get("exact"))
+                    msg = auto_under(op, v, exact_v, av, ab, f, S, lambda: has_sign_tie(frames, pos), what)
+                    if msg:
+                        return msg
                 else:
                     msg = same_est(av, ab, f, S, what)
                     if msg:
@@ -1007,6 +1322,20 @@ def oracle_ens(case, calls, ia, idx, ans, meta, S0, S):
                     return f"ensemble cve: {'value' if j == 1 else 'localization variance'} is not the length-weighted mean of the track estimates"
                 if not near(g[vi], var, svar):
                     return f"ensemble cve: variance of the {'value' if j == 1 else 'localization variance'} is not eq. 57 of Vestergaard et al."
+        elif op == "ensolsauto":
+            exp = ens_msd_expected(tracks, None, 2)
+            if exp[0] != "ok":
+                if a != exp[0]:
+                    return f"ensemble ols (max_lag=None): expected {exp[0]} from the ensemble MSD, got {a[:60]}"
+                continue
+            if len(exp[1]) + 1 <= 4:
+                if a != "RuntimeError":
+                    return f"ensemble ols (max_lag=None) with {len(exp[1])} lags: expected RuntimeError, got {a[:60]}"
+                continue
+            msg = auto_lags_line(est4(a), [(Fr(r[0]), r[1]) for r in exp[1]], case["dt"],
+                                 "ensemble ols with the automatic number of lags (ensolsauto)")
+            if msg:
+                return msg
         elif op == "ensols":
             auto = parse_extras(a).get("olsopt")
             if auto:
@@ -1036,6 +1365,8 @@ def oracle_ens(case, calls, ia, idx, ans, meta, S0, S):
     for v in sorted({c["v"] for c in calls} - {"base", "single", "copies"}):
         f = REL[v](meta)
         for op in case["ops"]:
+            if (v, op) not in idx:  # the AUTO_OPS run on auto_variants(case) only
+                continue
             av, ab = ans(v, op), ans("base", op)
             what = f"{op} under {v}"
             if op == "ensmsd":
@@ -1067,6 +1398,16 @@ def oracle_ens(case, calls, ia, idx, ans, meta, S0, S):
                     if not msg and tv[4] != "N" and tb[4] != "N":
                         if not near(ptok(tv[4]), f[2] ** 2 * ptok(tb[4]), max(f[2] ** 2 * ptok(tb[4]), f[2] ** 2 * S0 * S0)):
                             msg = f"{what}: variance of the localization variance is not {float(f[2] ** 2)} x the original"
+                elif op == "ensolsauto" and (v, op) not in idx:
+                    continue
+                elif op == "ensolsauto":
+                    exact_v = v in ("mirror", "shift", "time") or (v == "scale" and pow2(meta["a"])) or (v == "translate" and case.get("exact"))
+
+                    def ens_tie():
+                        exp = ens_msd_expected(tracks, None, 2)
+                        return exp[0] != "ok" or sign_ties([(Fr(r[0]), r[1]) for r in exp[1]])
+
+                    msg = auto_under(op, v, exact_v, av, ab, fa, S, ens_tie, what)
                 else:
                     msg = same_est(av, ab, fa, S, what)
                     if not msg and (v != "scale" or pow2(meta["a"])):
@@ -1167,6 +1508,12 @@ def nontrivial(case, ia):
         return len(case["frames"]) >= 3 and any(a.startswith("ok ") for a in ia) and len(case.get("variants", [])) >= 1
     if k == "ens":
         return len(case["frames"]) >= 2 and any(a.startswith("ok ") for a in ia)
+    if k == "optraw":
+        return any(a.startswith("ok ") for a in ia)
+    if k == "est":
+        return any(a.startswith("ok ") for a in ia) and any(not a.startswith("ok ") for a in ia)
+    if k == "glsupd":
+        return ia[0].startswith("ok ") and len(case["msd"]) >= 2
     return all(a.startswith("ok ") for a in ia)
 
 
@@ -1370,6 +1717,64 @@ def with_copies(case):
     return case
 
 
+def with_auto(case):
+    """(no random draw) the ops of the automatic number of lags, tied to the model's determine_optimal_points: a track that is
+    fitted with OLS also gets `optpts` (the lag search itself), `olsauto` (estimate_diffusion("ols"), max_lag=None) and - without
+    missing frames - `copyauto` (the ensemble of k identical copies, max_lag=None); a group with the "olsopt" extra gets
+    `ensolsauto`.  Each of them is run on every variant of the case."""
+    if case["kind"] == "track" and "ols" in case["ops"] and "olsauto" not in case["ops"] and len(case["frames"]) <= 130:
+        n = len(case["frames"])
+        case["ops"] = list(case["ops"]) + ["optpts", "olsauto"]
+        if contiguous_frames(case["frames"]) and n <= 60:
+            case["ops"].append("copyauto")
+            case.setdefault("copies_k", (2, 3, 5)[n % 3])
+    elif case["kind"] == "ens" and "olsopt" in case.get("extras", []) and "ensolsauto" not in case["ops"]:
+        case["ops"] = list(case["ops"]) + ["ensolsauto"]
+    return case
+
+
+# localisation errors optimal_points is evaluated at (every track length 0..520 on thorough): the constants the code passes on
+# (0 as a Python int, inf, nan) and a grid from diffusion dominated to noise dominated
+OPTRAW_LES = ["zero", 0.0, "inf", "nan", 1e-9, 1e-3, 0.01, 0.1, 0.25, 0.5, 1.0, 2.0, 3.3, 5.0, 10.0, 30.0, 100.0, 1e3, 1e4, 1e6, 1e9, 1e15]
+
+
+EST_TRACKS = [  # (frames, coords in px): no missing frames / missing frames / too short for the lag search / minimal
+    ([3, 4, 5, 6, 7, 8], [0.0, 1.25, 0.5, 2.0, 1.75, 3.5]),
+    ([0, 1, 3, 4, 7, 8, 9], [1.0, 0.25, 1.5, 3.0, 2.5, 2.75, 4.0]),
+    ([2, 3, 4, 5], [0.0, 1.0, 0.5, 2.0]),
+    ([0, 2, 3], [0.5, 0.0, 1.5]),
+]
+
+
+def est_scope(quick):
+    """the dispatcher, exhaustively: 4 tracks x method in {cve, ols, gls, wrong ones} x max_lag in {None, 0, 1, 2, 3, -1, 100}
+    x localization_variance in {None, 0.0, 1/64} x its variance in {None, 1/1024} (quick: every second track)"""
+    reqs = [{"method": m, "L": L, "lv": lv, "vlv": vlv} for m in ("cve", "ols", "gls", "OLS", "mse", "")
+            for L in (None, 0, 1, 2, 3, -1, 100) for lv in (None, 0.0, 1 / 64) for vlv in (None, 1 / 1024)]
+    for i, (f, x) in enumerate(EST_TRACKS):
+        for half in (0, 1):
+            if quick and (i + half) % 2:
+                continue
+            yield {"stream": "small-scope", "kind": "est", "frames": f, "coords": x, "px": 0.5, "dt": 0.25, "blur": (0, 1 / 6)[i % 2],
+                   "fdtype": FDTYPES[i], "reqs": reqs[half::2]}
+
+
+def glsupd_scope(quick):
+    """every (K, n) with 2 <= K < n <= 7 (quick: <= 6), intercept / slope on a small grid, two MSD curves each"""
+    for n in range(3, 7 if quick else 8):
+        for K in range(2, n):
+            for a, b in ((0.0, 1.0), (0.5, 1.0), (-0.25, 1.0), (2.0, 0.25), (1.0, 0.0)):
+                for shape in (0, 1):
+                    msd = [a + b * (l + 1) if shape == 0 else float((l * l + 1) % 5) / 4 for l in range(K)]
+                    yield {"stream": "small-scope", "kind": "glsupd", "K": K, "n": n, "a": a, "b": b, "msd": [max(0.0, m) for m in msd]}
+
+
+def optraw_scope(quick):
+    ns = list(range(0, 141)) + [150, 200, 250, 299, 300, 301, 400, 500, 501] if quick else range(0, 521)
+    for n in ns:
+        yield {"stream": "small-scope", "kind": "optraw", "n": n, "les": OPTRAW_LES if (not quick or n % 3 == 2 or n <= 12) else OPTRAW_LES[:6]}
+
+
 # reduced localisation error x = sigma^2 / (D dt) of a generated track: from diffusion dominated (the regime of the tracks
 # above: the optimal number of lags is 2..3 and the same for slope and intercept) over the crossover to localisation-noise
 # dominated and pure noise (D = 0), where the optimal numbers of lags grow with the track length (up to ~0.56 N for the slope,
@@ -1513,6 +1918,12 @@ def gen_session(rng, quick):
 
 
 def small_scope(quick):
+    """_small_scope with the ops of the automatic number of lags on every track of 4 and 5 points (4: RuntimeError)"""
+    for c in _small_scope(quick):
+        yield with_auto(c) if len(c["frames"]) >= 4 else c
+
+
+def _small_scope(quick):
     """every track of 3..5 points on frames within 0..4 (all gap patterns) with positions in {0,1,3}/4 px (first = 0)"""
     i = 0
     for n in (3, 4, 5):
@@ -1651,13 +2062,13 @@ def _cases(tier, rng):
             c["ops"], c["variants"], c["extras"] = ["msd", "cve"], ["mirror"], []
             c["L_msd"] = sub.randint(1, 4)
         c["subseed"] = i
-        yield pick_storage(sub, with_copies(c))
+        yield pick_storage(sub, with_auto(with_copies(c)))
     r = rng.fork("c09-ens")
     for i in range(70 if quick else 1200):
         sub = r.fork(i)
         c = gen_ens_case(sub, 12 if quick else 50, 30)
         c["subseed"] = i
-        yield pick_storage(sub, c)
+        yield pick_storage(sub, with_auto(c))
     yield from small_scope_ens(quick)
     r = rng.fork("c09-wmean")
     for i in range(60 if quick else 1500):
@@ -1683,13 +2094,13 @@ def _cases(tier, rng):
         sub = r.fork(i)
         c = gen_ens_case(sub, 8 if quick else 30, 16 if quick else 24, shared=True)
         c["subseed"] = i
-        yield pick_storage(sub, c)
+        yield pick_storage(sub, with_auto(c))
     r = rng.fork("c09-tracks-scheme")  # single tracks on a periodic sampling scheme: the k-th lag is not the lag k
     for i in range(30 if quick else 600):
         sub = r.fork(i)
         c = gen_track_case(sub, 24 if quick else 40, scheme=True)
         c["subseed"] = i
-        yield pick_storage(sub, with_copies(c))
+        yield pick_storage(sub, with_auto(with_copies(c)))
     r = rng.fork("c09-far")  # tracks and groups far from the coordinate origin (offset >> step size), see make_far
     for i in range(60 if quick else 800):
         sub = r.fork(i)
@@ -1699,13 +2110,53 @@ def _cases(tier, rng):
             c = gen_track_case(sub, 30 if quick else 60, scheme=sub.chance(0.2))
         c = make_far(sub, c)
         c["subseed"] = i
-        yield pick_storage(sub, with_copies(c) if c["kind"] == "track" else c)
+        yield pick_storage(sub, with_auto(with_copies(c) if c["kind"] == "track" else c))
     r = rng.fork("c09-noisy")  # long tracks from diffusion dominated to pure localisation noise, see gen_noisy_case
     for i in range(32 if quick else 300):
         sub = r.fork(i)
         c = gen_noisy_case(sub, 80 if quick else 128)
         c["subseed"] = i
-        yield pick_storage(sub, c)
+        yield pick_storage(sub, with_auto(c))
+    yield from optraw_scope(quick)
+    yield from glsupd_scope(quick)
+    yield from est_scope(quick)
+    r = rng.fork("c09-gls")  # the GLS iteration itself: tracks of 3..7 points without missing frames (exact elimination in the model)
+    for i in range(8 if quick else 120):
+        sub = r.fork(i)
+        n = sub.choice([3, 4, 5, 5, 6] + ([6] if quick else [7, 7]))
+        sig, step = sub.choice([0.0, 0.3, 1.0, 3.0]), sub.choice([0.0, 0.25, 1.0])
+        p, coords = sub.randint(-256, 256) / 64, []
+        for _ in range(n):
+            p += sub.normal() * step
+            coords.append(round((p + sub.normal() * sig) * 64) / 64)
+        f0 = sub.choice([0, 3, sub.randint(0, 200)])
+        reqs = [{"method": "gls", "L": L, "lv": None, "vlv": None} for L in (None, sub.choice([0, 2, 3, 4, n - 1, n, n + 2]))]
+        yield {"stream": "random", "kind": "est", "subseed": i, "frames": list(range(f0, f0 + n)), "coords": coords,
+               "px": sub.choice(EXACT_PX), "dt": sub.choice(DTS), "blur": 0, "fdtype": sub.choice(FDTYPES), "reqs": reqs}
+    r = rng.fork("c09-est")  # the dispatcher on random tracks: a few requests each, mostly valid ones
+    for i in range(40 if quick else 300):
+        sub = r.fork(i)
+        c = gen_track_case(sub, 20)
+        n = len(c["frames"])
+        reqs = []
+        for _ in range(4):
+            m = sub.choice(["ols", "ols", "gls", "cve", "cve", "ols ", "GLS"])
+            lv = sub.choice([None, None, None, 0.0, c["lv"]])
+            reqs.append({"method": m, "L": sub.choice([None, None, 0, 1, 2, 3, n - 1, n, n + 3, -2]), "lv": lv,
+                         "vlv": sub.choice([None, c["vlv"]]) if lv is not None else sub.choice([None, None, None, c["vlv"]])})
+            if reqs[-1]["L"] == 0 or (m == "cve" and reqs[-1]["L"] is not None):
+                reqs.append(dict(reqs[-1], L=None))
+        yield {"stream": "random", "kind": "est", "subseed": i, "frames": c["frames"], "coords": c["coords"], "px": c["px"],
+               "dt": c["dt"], "blur": c["blur"], "fdtype": sub.choice(FDTYPES), "reqs": reqs}
+    r = rng.fork("c09-glsupd")
+    for i in range(60 if quick else 600):
+        sub = r.fork(i)
+        K = sub.choice([2, 2, 3, 4, 5, 6, sub.randint(2, 10)])
+        n = K + sub.choice([1, 1, 1, 2, 5, sub.randint(1, 40)])  # K = n - 1: all lags of a track without missing frames
+        b = sub.choice([sub.uniform(0.01, 3), sub.randint(1, 128) / 64, 2.0**-20, 1e3])
+        a = sub.choice([0.0, sub.uniform(-0.5, 2) * b, sub.randint(-32, 128) / 64, 30 * b])
+        msd = [max(0.0, a + b * (l + 1) + sub.choice([0.0, sub.uniform(-0.3, 0.3) * b * (l + 1) ** 0.5])) for l in range(K)]
+        yield {"stream": "random", "kind": "glsupd", "subseed": i, "K": K, "n": n, "a": a, "b": b, "msd": msd}
 
 
 def lag_holes(case):
@@ -1734,6 +2185,46 @@ def extra_coverage(results):
     storage, all_lags = {}, {}  # storage type of the frame indices (as actually used by a call); KymoTrack.msd asked for >= all lags
     auto = {"compared": 0, "not_asserted_missing_frames": 0, "not_asserted_sign_tie": 0, "too_few_points_or_error_on_both_sides": 0,
             "compared_by_track_length": {}, "compared_by_num_lags_vs_start_guess": {}, "noise_ratio_of_generated_tracks": {}}
+    # the automatic number of lags as the MODEL runs it (determine_optimal_points / _ensemble, optimal_points, GLS step)
+    lagsearch = {"by_op": {}, "num_lags_chosen": {}, "num_lags_vs_start_guess": {}, "slope_vs_intercept_lags": {},
+                 "optimal_points_localization_error": {}, "gls_step": {}, "dispatcher": {}}
+    for r in results:
+        c = r["case"]
+        if c["kind"] in ("track", "ens", "optraw", "glsupd", "est"):
+            for call, a, m in zip(expand(c), r["impl"], r["model"]):
+                op = call["op"]
+                if op == "est":
+                    q = call["req"]
+                    meth = q["method"] if q["method"] in ("cve", "ols", "gls") else "unknown method"
+                    out = "estimate" if m.startswith("ok ") else m[:24]
+                    d_ = lagsearch["dispatcher"].setdefault(meth, {})
+                    d_[out] = d_.get(out, 0) + 1
+                if op == "glsupd":
+                    key = "singular" if m == "singular" else f"K={call['K']}" if call["K"] <= 6 else "K>=7"
+                    lagsearch["gls_step"][key] = lagsearch["gls_step"].get(key, 0) + 1
+                if op not in AUTO_OPS:
+                    continue
+                d_ = lagsearch["by_op"].setdefault(op, {})
+                key = "tie (not compared)" if m == "tie" else "compared: numbers" if m.startswith("ok ") else "compared: " + m[:30]
+                d_[key] = d_.get(key, 0) + 1
+                if op == "optraw":
+                    le = call["le"]
+                    key = le if isinstance(le, str) else "0" if le == 0 else "<0.1" if le < 0.1 else "0.1-10" if le <= 10 else ">10"
+                    lagsearch["optimal_points_localization_error"][key] = lagsearch["optimal_points_localization_error"].get(key, 0) + 1
+                if not m.startswith("ok "):
+                    continue
+                if op == "optpts":
+                    ns, ni = (int(x) for x in m.split()[1:3])
+                    n = len(call["frames"])
+                    g0 = max(2, n // 10)
+                    key = "= start guess" if ns == g0 else "< start guess" if ns < g0 else "> start guess"
+                    lagsearch["num_lags_vs_start_guess"][key] = lagsearch["num_lags_vs_start_guess"].get(key, 0) + 1
+                    key = "slope = intercept" if ns == ni else "slope < intercept" if ns < ni else "slope > intercept (cache refreshed for the intercept only when larger)"
+                    lagsearch["slope_vs_intercept_lags"][key] = lagsearch["slope_vs_intercept_lags"].get(key, 0) + 1
+                if op in ("olsauto", "copyauto", "ensolsauto"):
+                    k = int(m.split()[4])
+                    key = str(k) if k <= 4 else "5-9" if k < 10 else "10-29" if k < 30 else ">=30"
+                    lagsearch["num_lags_chosen"][key] = lagsearch["num_lags_chosen"].get(key, 0) + 1
     for r in results:
         c = r["case"]
         if c["kind"] in ("track", "ens"):
@@ -1829,6 +2320,7 @@ def extra_coverage(results):
             "frame_index_storage_types_of_kymotrack_calls": storage,
             "kymotrack_msd_calls_by_requested_lags_and_storage_type": all_lags,
             "identical_copies_with_automatic_number_of_lags": auto,
+            "lag_search_as_run_by_the_model": lagsearch,
             "tolerance": "1e-9 * scale (scale computed by the model from absolute values of every term)",
             "exhaustive": False,
             "exhaustive_note": "the small-scope stream enumerates its finite space completely on thorough (strided on quick); random streams do not"}
@@ -1865,7 +2357,19 @@ RULE = (
     "the same line time repeated with another in between, unrelated ones - on groups of 40-50 tracks of 30-40 points (thorough "
     "also 10-30 tracks of 60-100; the ensemble OLS on one simulation per session, quick: 40-50 tracks of 20-25 points); ensemble "
     "CVE / OLS and KymoTrack.msd are taken from the group the simulation RETURNED "
-    "(5/8-sigma band around the simulated D, exploration; lag times = lag * simulated line time, exact; model fed with the line time asked for). Non-trivial: a track case with >=3 points, a numeric estimate and at least one "
+    "(5/8-sigma band around the simulated D, exploration; lag times = lag * simulated line time, exact; model fed with the line time asked for). "
+    "Deepening round D - the automatic number of lags and the dispatcher are now MODEL ops: every track case that is fitted with OLS also "
+    "runs determine_optimal_points itself (optpts), estimate_diffusion('ols') with max_lag=None (olsauto) and - without missing frames - "
+    "the ensemble of 2/3/5 identical copies with max_lag=None (copyauto); every group with the olsopt extra runs ensemble_diffusion('ols') "
+    "with max_lag=None (ensolsauto); each on base + position scale (any a, not only powers of two) + one more variant cycling with the "
+    "case; tracks of 4 and 5 points of the small scope included (4: RuntimeError); optimal_points(localization_error, n) for every "
+    "n in 0..520 (quick: 0..140 and some) x 22 localisation errors incl. the int 0, inf, nan (optraw); one GLS update step "
+    "_update_gls_estimate on the inverse covariance matrix the library computes, every (K, n) with 2 <= K < n <= 7 x 5 (intercept, slope) "
+    "x 2 curves + random K <= 10 (glsupd); KymoTrack.estimate_diffusion as a dispatcher (est): 4 tracks x 6 methods (3 wrong) x 7 max_lag "
+    "x 3 localization_variance x 2 variance-of-it exhaustively, random tracks with 4-6 requests, and GLS fits on tracks of 3-7 points "
+    "without missing frames (exact Gauss-Jordan elimination in the model, state rounded to doubles, 1e-5 relative). Where a sign / floor / "
+    "stop criterion the code branches on is decided by the last bits of a double the model answers `tie` and nothing is compared "
+    "(counted in lag_search_as_run_by_the_model). Non-trivial: a track case with >=3 points, a numeric estimate and at least one "
     "metamorphic variant; an ensemble with >=2 tracks and a numeric answer; a malformed case that raises."
 )
 TRUSTED = [
@@ -1874,12 +2378,20 @@ TRUSTED = [
     "lumicks.pylake.kymo._kymo_from_array with _motion_blur_constant set (as simulation/diffusion.py does) stands for a tracked kymograph: "
     "only line_time_seconds, pixelsize, motion_blur_constant, contiguous and the calibration unit are read by the estimators",
     "numpy np.unique / meshgrid / boolean selection / np.diff / np.mean semantics as transcribed in lean/Verif/Model/C09.lean",
+    "np.polyfit(x, y, 1) is the least-squares line (the model uses the closed form olsLine; sign decisions within 1e-7 of zero are not compared); "
+    "np.linalg.inv is the matrix inverse (the model eliminates exactly over Q; compared to 1e-5 on <= 6x6 covariance matrices); libm pow/cbrt "
+    "vs exp(y log x)/cbrt in Lean's Float (floors within 1e-6 of an integer are not compared)",
 ]
 ASSUMPTIONS = [
     "frame indices of a track are strictly increasing integers (hypothesis Increasing of msd_def; KymoTrack data always are); "
     "the integer type they are stored in is part of the input of the implementation only (int8..uint64, list) - the model and the oracle work on the integers",
     "theorems are over Q: they hold for the exact rational value of every double input, not for the rounded float arithmetic",
-    "outside the model (oracle/metamorphic exploration only): GLS iteration, determine_optimal_points (max_lag=None for ols and "
+    "deepening round D: determine_optimal_points / _determine_optimal_points_ensemble / optimal_points / calculate_localization_error, the GLS "
+    "iteration and the dispatcher KymoTrack.estimate_diffusion are now IN the model (theorems for every optimal_points function, every matrix "
+    "inverse and state rounding); hypotheses: a != 0 (optimal_points_scale, ols_auto_scale), AtLeastTwo op + >= 5 points + N-1 lags i.e. no "
+    "missing frames (ensemble_identical_auto; necessary: kernel-checked witness with a missing frame), a symmetric inverse covariance matrix and a "
+    "non-vanishing determinant kappa*mu - lam^2 (gls_normal_equations); the older oracle-side exploration of the same code stays: "
+    "(oracle/metamorphic exploration: GLS iteration on longer tracks, determine_optimal_points (max_lag=None for ols and "
     "ensemble ols: the oracle takes the reported num_lags and checks the normal equations through the first num_lags MSD points; "
     "the single track and the ensemble of identical copies of it must report the same num_lags and line - asserted for tracks "
     "without missing frames, where the track length ensemble_ols derives (lags + 1, theorem ensemble_identical_curve) is the "
